@@ -558,7 +558,7 @@ func minimise(t *testing.T, h *Harness, sc interface{}, res *sim.Result, class s
 		}
 		// 2. tape: shorter prefix (rest = oldest-first, no stalls), then zero blocks
 		tape := append([]uint32(nil), curRes.Tape...)
-		lo, hi := 4, len(tape)
+		lo, hi := sim.TapeHeader, len(tape)
 		for lo < hi {
 			mid := (lo + hi) / 2
 			if try(curSc, tape[:mid]) {
@@ -570,7 +570,7 @@ func minimise(t *testing.T, h *Harness, sc interface{}, res *sim.Result, class s
 		}
 		tape = append([]uint32(nil), curRes.Tape...)
 		for blk := len(tape) / 2; blk >= 1; blk /= 2 {
-			for at := 4; at+blk <= len(tape); at += blk {
+			for at := sim.TapeHeader; at+blk <= len(tape); at += blk {
 				allZero := true
 				for _, v := range tape[at : at+blk] {
 					if v != 0 {
